@@ -25,10 +25,20 @@ class GR:
     def __init__(self, rng, depth=3):
         self.r = rng
         self.depth = depth
+        # occasionally ONE dimension of the program is large (9..40 positional / named arguments, variants, pattern
+        # elements, request arguments): more than a small inline vector, fixed buffer or bit mask holds; used once
+        self.bigdim = rng.choice(["pos", "named", "variants", "els", "args"]) if rng.random() < 0.06 else None
+
+    def cnt(self, dim, small):
+        if self.bigdim == dim:
+            self.bigdim = None
+            return self.r.choice([9, 10, 16, 17, 24, 33, 40])
+        return small
 
     def named_args(self):
         r = self.r
-        names = r.sample(["x", "y", "n", "type", "minimumFractionDigits", "opt"], r.choice([0, 0, 1, 1, 2]))
+        nn = self.cnt("named", r.choice([0, 0, 1, 1, 2]))
+        names = r.sample(["x", "y", "n", "type", "minimumFractionDigits", "opt"] + (["o%d" % i for i in range(40)] if nn > 6 else []), nn)
         out = []
         for nm in names:
             if nm == "type":
@@ -66,7 +76,7 @@ class GR:
             return t
         if k < 0.85:
             f = r.choice(FUNCS + ["MISSING"])
-            pos = [self.inline(d - 1, arg_pos=True) for _ in range(r.choice([0, 1, 1, 2]))]
+            pos = [self.inline(d - 1, arg_pos=True) for _ in range(self.cnt("pos", r.choice([0, 1, 1, 2])))]
             if f == "NUMBER" and r.random() < 0.8:
                 pos = [r.choice(["$n", "$x", r.choice(NUMS), "$zz"])]
             return f + "(" + ", ".join(pos + self.named_args()) + ")"
@@ -82,8 +92,8 @@ class GR:
                 sel = "$" + r.choice(VARS)
             if sel.startswith("-") and "." not in sel.split("(")[0]:
                 sel = "$n"
-            n = r.randint(1, 4)
-            keys = r.sample(KEYS, n)
+            n = self.cnt("variants", r.randint(1, 4))
+            keys = r.sample(KEYS + (["k%d" % i for i in range(20)] + [str(i) for i in range(4, 24)] if n > 8 else []), n)
             dflt = r.randrange(n)
             out = sel + " ->"
             for i, k in enumerate(keys):
@@ -93,7 +103,7 @@ class GR:
 
     def pattern(self, d, inline_only=False):
         r = self.r
-        n = r.choice([1, 1, 2, 2, 3, 4])
+        n = self.cnt("els", r.choice([1, 1, 2, 2, 3, 4]))
         out = ""
         for i in range(n):
             if r.random() < 0.45:
@@ -130,6 +140,11 @@ class GR:
         if r.random() < 0.15:
             return "~"
         ks = r.sample(VARS, r.randint(0, len(VARS)))
+        if self.bigdim == "args":
+            # many request arguments around the referenced ones (names sorting before, between and after x y n s)
+            ks = ks + r.sample(["a%d" % i for i in range(15)] + ["o%d" % i for i in range(15)] + ["z%d" % i for i in range(15)],
+                               self.cnt("args", 0))
+            r.shuffle(ks)
         if not ks:
             return "."
         out = []
